@@ -45,11 +45,11 @@ var restrict = wprog.Restrict{NoEncrypt: true, NoObjStm: true, SafeText: true, M
 // restrictLong: few operations, long stream bodies (several scanner windows);
 // the crash points of such a document are enumerated around the object
 // boundaries and on a coarse grid in between, not byte by byte.
-var restrictLong = wprog.Restrict{NoEncrypt: true, NoObjStm: true, SafeText: true, MaxOps: 3, MaxBody: 4200, SmallValues: true, NoWriterGet: true}
+var restrictLong = wprog.Restrict{NoEncrypt: true, NoObjStm: true, SafeText: true, MaxOps: 6, MaxBody: 4200, SmallValues: true, NoWriterGet: true, LongBodies: true}
 
 func Run(e *core.Env) {
 	r := &restrict
-	if e.T.Bool("long", 1, 4) {
+	if e.T.Bool("long", 1, 2) {
 		r = &restrictLong
 		sparse = true
 		e.Probe("document with long streams (crash points around object boundaries)")
@@ -130,6 +130,7 @@ func Enumerate(e *core.Env, res *wprog.Result, image []byte, eofAtEnd bool) {
 			e.Fail("scan-failed", map[string]string{"err": errKind(err)}, "%s: %d complete objects present but SequentialScan fails: %v", what, len(complete), err)
 			return false
 		}
+		dataInDoubt := map[int64]bool{}
 		byStart := map[int64]*pdf.FileObject{}
 		for _, s := range fi.Sections {
 			for _, o := range s.Objects {
@@ -146,15 +147,19 @@ func Enumerate(e *core.Env, res *wprog.Result, image []byte, eofAtEnd bool) {
 							// to be recovered by scanning; that is inherently ambiguous
 							// if the raw data ends in an EOL or contains EOL+endstream
 							raw := ss.Raw
-							if n := len(raw); n > 0 && (raw[n-1] == '\n' || raw[n-1] == '\r') {
-								e.Probe("ambiguous extent skipped")
-								continue
-							}
 							if bytes.Contains(raw, []byte("\nendstream")) || bytes.Contains(raw, []byte("\rendstream")) {
 								e.Probe("ambiguous extent skipped")
 								continue
 							}
-							e.Probe("stream extent recovered without /Length")
+							if n := len(raw); n > 0 && (raw[n-1] == '\n' || raw[n-1] == '\r') {
+								// only the last byte is in doubt: the object must
+								// still be listed and not broken, its data is not
+								// compared
+								e.Probe("ambiguous last byte: data not compared")
+								dataInDoubt[x.start] = true
+							} else {
+								e.Probe("stream extent recovered without /Length")
+							}
 						}
 					}
 				}
@@ -170,7 +175,7 @@ func Enumerate(e *core.Env, res *wprog.Result, image []byte, eofAtEnd bool) {
 				return false
 			}
 			exp := res.Written[ref]
-			if exp == nil {
+			if exp == nil || dataInDoubt[x.start] {
 				continue // catalog, info, length objects, xref stream: listing is all we know
 			}
 			got, err := fi.Read(fo)
